@@ -29,16 +29,31 @@ func Make(tag string) Mid1 {
 //
 //garble:controlflow flatten_passes=1 junk_jumps=2 block_splits=2
 func Scramble(n int) int {
+	// Variables of several types, so that the rewritten function declares
+	// several groups of variables.
 	acc := 1
+	label := "s"
+	even := n%2 == 0
+	ratio := 1.5
 	if n%3 == 0 {
 		acc += n * 7
+		label += "a"
 	} else if n%3 == 1 {
 		acc ^= n << 2
+		ratio *= 2
 	} else {
 		acc -= n
+		even = !even
 	}
 	if n > 10 {
 		acc *= 3
+		label += "big"
+	}
+	if even {
+		acc += len(label)
+	}
+	if ratio > 2 {
+		acc++
 	}
 	return acc + hardened(n)
 }
